@@ -111,6 +111,34 @@ CLAIMS = {
               "Oracle: streams of hundreds (thorough: tens of thousands) of calls incl. 1-frame chunks on the real crate."),
         note=NOTE + "Accumulated f64 rounding of idx += t over very long streams is measured, not proved.",
         ref="3.7"),
+
+    "C05": dict(
+        technique="Lean 4 proof (refinement to a reference stream, law-free in the FFT unit; exact potential identities for the async instants) + twin-stream correspondence",
+        text=("FFT types: for ANY per-block resampler, FftFixedIn, FftFixedOut and FftFixedInOut with equal block sizes emit prefixes of one reference stream "
+              "(concatenation of the unit over the full blocks of the concatenated input) whatever the chunk/sub-chunk parameters and call boundaries; the saved "
+              "frames are exactly the unprocessed input / undelivered output (induction over unbounded histories, single channel). Async types: evaluation "
+              "instants advance by exactly frames/ratio per call for both variants and every chunk schedule; data-plane refinement in progress "
+              "(RubatoProofs/Async/Stream.lean). Oracle: twin real streams (two chunk sizes, FixedIn vs FixedOut, set_chunk_size schedules, three FFT variants "
+              "bit for bit) on noise/sine/index input."),
+        note=NOTE + "Floating-point differences between chunkings are bounded by the oracle's tolerance, not proved; at exact ties of the sub-filter grid the sinc types may pick a neighbouring sub-filter (finding D16).",
+        ref="3.5"),
+    "C06": dict(
+        technique="Lean 4 proof (closed forms of the stepping loops over Q; negation of the fixed-input clause by a kernel-evaluated witness) + index-signal correspondence",
+        text=("Fixed-output (full statement): spacing j of a call is t0 + j*(t1-t0)/c, positive, between 1/old and 1/new, monotone towards 1/new, equal to 1/new "
+              "at the last frame; after a call ratio = target so the next chunk runs at 1/new; a stepped change stores ratio = target = new and applies from the "
+              "first frame; instants strictly increasing; reads inside the frames loaded (one-frame overshoot for small oversampling factors: D14). Fixed-input: "
+              "constant spacing at constant ratio; the 'between the reciprocals' clause is false during ramps (D11 witness). Oracle: the index signal through "
+              "Linear polynomial resamplers and through the sinc resamplers with a linear probe interpolator makes the real crate print its evaluation instants."),
+        note=NOTE + "Instants are observed through f64 interpolation of the index signal (1e-7 relative tolerance).",
+        ref="3.6"),
+    "C14": dict(
+        technique="Lean 4 proof (delay algebra over Q from the stream instants and the polyphase tap map; filter symmetry over R) + impulse-centroid oracle",
+        text=("Theorems: polynomial types: true delay 4r-1, reported floor(4r), difference in (0,1] for every ratio; sinc types: the polyphase branch s applied at "
+              "index i is the prototype centred L/2-1+(s+1)/f after i, hence the true delay is r(1-1/f)-1 whatever L while floor(L*r/2) is reported: the property is "
+              "FALSE for the sinc types (finding D1, witness and general condition proved); FFT: the filter is symmetric about tap fft_in/2 and fft_out/2 is "
+              "reported. Oracle: impulse at a random frame through all seven real types, energy centroid vs n*ratio + output_delay()."),
+        note=NOTE + "That zero-padded FFT multiplication is linear convolution is assumed about realfft (measured by the oracle).",
+        ref="3.14"),
 }
 
 UNDER_CONSTRUCTION = "check under construction in this session (framework being built; see DESIGN.md section 3)"
